@@ -44,7 +44,7 @@ type PGroup struct {
 
 var flagNames = []string{"isBinary", "isSubrepo", "sandbox", "needsTransitiveDeps", "outputIsComplete", "stamp",
 	"isFilegroup", "isTextFile", "isRemoteFile", "isLocal", "srcListFiles", "exitOnError", "preBuild", "postBuild",
-	"testSandbox", "isTest"}
+	"testSandbox", "testNoOutput", "isTest"}
 
 type T struct {
 	Label                                                    Label
@@ -64,6 +64,7 @@ type Ctx struct {
 	Runtime          bool
 	Config, Fallback string
 	Environ          []KV
+	HashCheckers     []string // [build] hashcheckers
 }
 
 func hx(s string) string { return lib.Hex(s) }
@@ -219,6 +220,9 @@ func encCtx(c Ctx) string {
 	if len(c.Environ) > 0 {
 		f = append(f, "environ="+encKVs(c.Environ))
 	}
+	if len(c.HashCheckers) > 0 {
+		f = append(f, "hashcheckers="+encList(c.HashCheckers))
+	}
 	return strings.Join(f, " ")
 }
 
@@ -329,6 +333,9 @@ func parseTokens(toks []string, c *Ctx, t *T) {
 				continue
 			case "environ":
 				c.Environ = decKVs(v)
+				continue
+			case "hashcheckers":
+				c.HashCheckers = decList(v)
 				continue
 			}
 		}
@@ -496,7 +503,7 @@ func wellFormed(c Ctx, t T) bool {
 	ok = ok && distinct(t.Licences)
 	// test fields need a test; entry points may not share a name with a named output (AddEntryPoint panics)
 	if !t.Flags["isTest"] {
-		ok = ok && len(t.TestOutputs) == 0 && t.TestCommand == "" && t.TestCommands == nil && t.TestArgsPlaceholder == "" && !t.Flags["testSandbox"]
+		ok = ok && len(t.TestOutputs) == 0 && t.TestCommand == "" && t.TestCommands == nil && t.TestArgsPlaceholder == "" && !t.Flags["testSandbox"] && !t.Flags["testNoOutput"]
 	}
 	for _, e := range t.EntryPoints {
 		for _, g := range t.NamedOuts {
@@ -641,6 +648,7 @@ func buildTarget(t T) *core.BuildTarget {
 			bt.AddTestOutput(o)
 		}
 		bt.Test.Sandbox = t.Flags["testSandbox"]
+		bt.Test.NoOutput = t.Flags["testNoOutput"]
 		bt.Test.Command = t.TestCommand
 		if t.TestCommands != nil {
 			bt.Test.Commands = map[string]string{}
@@ -746,6 +754,7 @@ func realHash(c Ctx, t T) ([]byte, string) {
 			return "readback-mismatch " + m
 		}
 		state.Config.Build.Config, state.Config.Build.FallbackConfig = c.Config, c.Fallback
+		state.Config.Build.HashCheckers = c.HashCheckers
 		setEnviron(c, t)
 		out = build.RuleHash(state, bt, c.Runtime, false)
 		return ""
@@ -756,8 +765,31 @@ func realHash(c Ctx, t T) ([]byte, string) {
 // ---------------------------------------------------------------- independent spec of the pinned pre-image
 
 type chunk struct {
-	item int
+	item string // which write group of ruleHash the piece belongs to
 	b    string
+}
+
+// What the real ruleHash does today, found by probing it (so that this transcription follows the two planned
+// repairs without being edited in lock-step): are [build] hashcheckers written for targets that declare hashes, and
+// are the names of named source groups written?
+var specHashCheckers, specNamedSrcNames, specTestNoOutput bool
+
+func probeSpec() {
+	h := func(c Ctx, t T) string {
+		x, _ := realHash(c, t)
+		return string(x)
+	}
+	base := T{Label: Label{Pkg: "probe", Name: "p"}, Hashes: []string{"h"}, Flags: map[string]bool{}}
+	specHashCheckers = h(Ctx{Config: "opt", Fallback: "opt", HashCheckers: []string{"sha1"}}, base) !=
+		h(Ctx{Config: "opt", Fallback: "opt", HashCheckers: []string{"sha256"}}, base)
+	a := T{Label: Label{Pkg: "probe", Name: "p"}, NamedSrcs: []Group{{"a", []string{"x"}}}, Flags: map[string]bool{}}
+	b := T{Label: Label{Pkg: "probe", Name: "p"}, NamedSrcs: []Group{{"b", []string{"x"}}}, Flags: map[string]bool{}}
+	c := Ctx{Config: "opt", Fallback: "opt"}
+	specNamedSrcNames = h(c, a) != h(c, b)
+	rt := Ctx{Runtime: true, Config: "opt", Fallback: "opt"}
+	t1 := T{Label: Label{Pkg: "probe", Name: "p"}, Flags: map[string]bool{"isTest": true}}
+	t2 := T{Label: Label{Pkg: "probe", Name: "p"}, Flags: map[string]bool{"isTest": true, "testNoOutput": true}}
+	specTestNoOutput = h(rt, t1) != h(rt, t2)
 }
 
 func getCommand(c Ctx, commands *[]KV, single string) string {
@@ -825,35 +857,34 @@ func sortedKVs(l []KV) []KV {
 }
 
 const (
-	kvItemEntryPoints = 30
-	kvItemEnv         = 31
+	kvItemEntryPoints = "entryPoints"
+	kvItemEnv         = "env"
 )
 
 // specChunks: every Write of the pinned ruleHash, tagged with the index of the statement group it belongs to.
 func specChunks(c Ctx, t T) []chunk {
 	var out []chunk
-	n := 0
-	w := func(s string) { out = append(out, chunk{n, s}) }
-	next := func() { n++ }
-	ws := func(l []string) {
+	grp := ""
+	w := func(s string) { out = append(out, chunk{grp, s}) }
+	ws := func(name string, l []string) {
+		grp = name
 		for _, s := range l {
 			w(s)
 		}
-		next()
 	}
 	b := func(name string) {
+		grp = name
 		if t.Flags[name] {
 			w("\x02")
 		} else {
 			w("\x01")
 		}
-		next()
 	}
 	ob := func(name string) {
+		grp = name
 		if t.Flags[name] {
 			w("\x02")
 		}
-		next()
 	}
 	all := func(un []string, named []Group) []string {
 		r := append([]string{}, un...)
@@ -862,53 +893,63 @@ func specChunks(c Ctx, t T) []chunk {
 		}
 		return r
 	}
-	w(lstr(t.Label))
-	next() // 1
+	groups := func(name string, gs []Group) {
+		grp = name
+		for _, g := range sortedGroups(gs) {
+			w(g.K)
+			for _, o := range g.Vs {
+				w(o)
+			}
+		}
+	}
+	ws("label", []string{lstr(t.Label)})
 	deps := append([]Label{}, t.Deps...)
 	sort.Slice(deps, func(i, j int) bool { return lless(deps[i], deps[j]) })
+	grp = "deps"
 	for _, d := range deps {
 		w(lstr(d))
 	}
-	next() // 2
+	grp = "visibility"
 	for _, v := range t.Visibility {
 		w(lstr(v))
 	}
-	next()                       // 3
-	ws(t.Hashes)                 // 4
-	ws(all(t.Srcs, t.NamedSrcs)) // 5
-	ws(t.Outs)                   // 6
-	for _, g := range sortedGroups(t.NamedOuts) {
-		w(g.K)
-		for _, o := range g.Vs {
-			w(o)
-		}
+	ws("hashes", t.Hashes)
+	if specHashCheckers && len(t.Hashes) > 0 {
+		ws("hashCheckers", c.HashCheckers)
 	}
-	next()             // 7
-	ws(t.Licences)     // 8
-	ws(t.OptionalOuts) // 9
-	ws(t.Labels)       // 10
-	ws(t.Secrets)      // 11
-	b("isBinary")      // 12
-	ob("isSubrepo")    // 13
-	ob("sandbox")      // 14
-	w(getCommand(c, t.Commands, t.Command))
-	next() // 15
+	if specNamedSrcNames {
+		ws("srcs", t.Srcs)
+		groups("namedSrcs", t.NamedSrcs)
+	} else {
+		ws("sources", all(t.Srcs, t.NamedSrcs))
+	}
+	ws("outs", t.Outs)
+	groups("namedOuts", t.NamedOuts)
+	ws("licences", t.Licences)
+	ws("optionalOuts", t.OptionalOuts)
+	ws("labels", t.Labels)
+	ws("secrets", t.Secrets)
+	b("isBinary")
+	ob("isSubrepo")
+	ob("sandbox")
+	ws("command", []string{getCommand(c, t.Commands, t.Command)})
 	for _, f := range []string{"needsTransitiveDeps", "outputIsComplete", "stamp", "isFilegroup", "isTextFile", "isRemoteFile", "isLocal", "srcListFiles"} {
-		b(f) // 16..23
+		b(f)
 	}
-	ob("exitOnError") // 24
-	ws(t.Requires)    // 25
+	ob("exitOnError")
+	ws("requires", t.Requires)
 	ps := append([]PGroup{}, t.Provides...)
 	sort.Slice(ps, func(i, j int) bool { return ps[i].K < ps[j].K })
+	grp = "provides"
 	for _, g := range ps {
 		w(g.K)
 		for _, l := range g.Ls {
 			w(lstr(l))
 		}
 	}
-	next()         // 26
-	b("preBuild")  // 27
-	b("postBuild") // 28
+	b("preBuild")
+	b("postBuild")
+	grp = "passEnv"
 	if t.PassEnv != nil {
 		env := map[string]string{}
 		for _, kv := range c.Environ {
@@ -920,36 +961,31 @@ func specChunks(c Ctx, t T) []chunk {
 			w(env[e])
 		}
 	}
-	next()           // 29
-	ws(t.OutputDirs) // 30
-	if n != kvItemEntryPoints {
-		panic("spec item numbering")
-	}
+	ws("outputDirs", t.OutputDirs)
 	// hashMap writes key+"="+value in one Write; the three logical pieces are kept apart here so that the
 	// classifier can tell "same pieces" from "same bytes"
-	for _, kv := range sortedKVs(t.EntryPoints) {
-		w(kv.K)
-		w("=")
-		w(kv.V)
+	for _, m := range []struct {
+		name string
+		kvs  []KV
+	}{{kvItemEntryPoints, t.EntryPoints}, {kvItemEnv, t.Env}} {
+		grp = m.name
+		for _, kv := range sortedKVs(m.kvs) {
+			w(kv.K)
+			w("=")
+			w(kv.V)
+		}
 	}
-	next() // 31
-	for _, kv := range sortedKVs(t.Env) {
-		w(kv.K)
-		w("=")
-		w(kv.V)
-	}
-	next() // 32
-	w(t.FileContent)
-	next()
+	ws("fileContent", []string{t.FileContent})
 	if c.Runtime {
-		ws(all(t.Data, t.NamedData))
+		ws("data", all(t.Data, t.NamedData))
 		if t.Flags["isTest"] {
-			ws(t.TestOutputs)
+			ws("testOutputs", t.TestOutputs)
 			ob("testSandbox")
-			w(getCommand(c, t.TestCommands, t.TestCommand))
-			next()
-			w(t.TestArgsPlaceholder)
-			next()
+			if specTestNoOutput {
+				b("testNoOutput")
+			}
+			ws("testCommand", []string{getCommand(c, t.TestCommands, t.TestCommand)})
+			ws("testArgsPlaceholder", []string{t.TestArgsPlaceholder})
 		}
 	}
 	return out
@@ -1339,6 +1375,7 @@ func randTarget(r *lib.Run, c Ctx) T {
 		t.Flags["isTest"] = true
 		t.TestOutputs = sortedSet(randList(r, nonEmpty, 2))
 		t.Flags["testSandbox"] = some(30)
+		t.Flags["testNoOutput"] = some(30)
 		t.TestCommand = pick(r, alpha)
 		t.TestArgsPlaceholder = pick(r, []string{"", "{}", "a"})
 	}
@@ -1364,6 +1401,9 @@ func randCtx(r *lib.Run) Ctx {
 	}
 	if r.Rng.Chance(30) {
 		c.Runtime = true
+	}
+	if r.Rng.Chance(60) {
+		c.HashCheckers = dedupe(randList(r, []string{"sha1", "sha256", "blake3", "xxhash", "crc32"}, 3))
 	}
 	seen := map[string]bool{}
 	for i := r.Rng.Intn(4); i > 0; i-- {
@@ -1594,6 +1634,7 @@ func Main(prop string) {
 	defer r.Finish()
 	r.Rule = "rule/pre: at least two entries among srcs/outs/env/named outs/labels; pair: the targets differ in a listed attribute; distinct by op line"
 	state = core.NewDefaultBuildState()
+	probeSpec()
 	if ops := r.ReplayOps(); ops != nil {
 		for _, op := range ops {
 			runOp(r, op)
